@@ -33,3 +33,8 @@ check("C18",
       "Exploration: generated clock-reading sequences (stalls, repeats, backward steps, pre-epoch) on one generator, and 2-16 threads x up to millions of calls with the clock stalled or real; all returned values pairwise distinct and increasing per caller.",
       "Trusted: the scripted clock hook (substitutes SystemTime::now() inside compute_next only). Interleavings inside the CAS loop are sampled by real parallelism, not enumerated. The 'explicit timestamp is sent unchanged' half is checked on wire frames by C09 and by the mock-cluster part.",
       "DESIGN.md 2/C18")
+check("C02",
+      "model-based (stateful) property testing: histories over the real stream-id/handler map against a reference model of streams outstanding at the server; exhaustion histories over the full 32768-id space",
+      "Exploration: generated histories of submit / abandon / answer (any order) / unsolicited / break drive the connection's real ResponseHandlerMap; after every step the model decides which handler (or orphan marker, or nothing) a stream may resolve to and that no stream is handed out while its previous request is unanswered by the server.",
+      "Trusted: the reference model. Covers all orders of the reader/writer/orphaner effects on the map; real interleavings inside the router task and byte-level routing of frames are sampled by the end-to-end mock-cluster sub-check (when present in evidence sub_checks).",
+      "DESIGN.md 2/C02")
